@@ -62,8 +62,8 @@ def peel(n):
     """Strip wrappers that do not change the value: blocks with only a tail, `&`/`&mut`, deref."""
     while True:
         k = n.get("k")
-        if k == "blockexpr" and not n["block"]["stmts"] and n["block"].get("tail") is not None:
-            n = n["block"]["tail"]
+        if k == "blockexpr" and not n["block"]["stmts"] and n["block"].get("tail") is not None and not n.get("inlined"):
+            n = n["block"]["tail"]       # (a labelled block that stands for an inlined helper with early returns is kept)
         elif k == "block" and not n["stmts"] and n.get("tail") is not None:
             n = n["tail"]
         else:
@@ -162,10 +162,26 @@ def local_of(n):
     return None
 
 
+def min_args(n):
+    """(a, b) if n is `std::cmp::min(a, b)` or `a.min(b)` (Ord::min), else None."""
+    n = peel_ref(n)
+    if n.get("k") == "call" and (cname(n) or "").endswith("cmp::min") and len(n["args"]) == 2:
+        return n["args"][0], n["args"][1]
+    if n.get("k") == "mcall" and n["name"] == "min" and len(n["args"]) == 1 and (cname(n) or "").endswith("Ord::min"):
+        return n["recv"], n["args"][0]
+    return None
+
+
+CONSTS = {}        # def path of a constant whose initialiser is a literal -> its value (filled by Program)
+
+
 def lit_value(n):
-    n = peel(n)
+    """The value of a literal, or of a named constant whose initialiser is a literal (`const ATTR: &str = "to"`)."""
+    n = peel_ref(n) if n.get("k") == "addr_of" else peel(n)
     if n.get("k") == "lit":
         return n["v"][0]
+    if n.get("k") == "path" and (n.get("res") or {}).get("dk", "").startswith(("Const", "AssocConst")):
+        return CONSTS.get(n["res"].get("path"))
     return None
 
 
@@ -186,11 +202,25 @@ def loc(n):
 # ------------------------------------------------------------------------------------------------
 # rendering
 
+_SHAPE = [False]
+
+
+def render_shape(n):
+    """render() with every local replaced by its type: the spelling-independent shape of an expression."""
+    _SHAPE[0] = True
+    try:
+        return render(n)
+    finally:
+        _SHAPE[0] = False
+
+
 def rpat(p):
     k = p.get("p")
     if k == "wild":
         return "_"
     if k == "bind":
+        if _SHAPE[0]:
+            return "_"
         s = p["name"]
         if "Mut" in p.get("mode", "") and "mut" not in s:
             if p["mode"].endswith("Mut)") or "Mut" in p["mode"].split(",")[-1]:
@@ -252,6 +282,8 @@ def render(n, depth=0):
     if k == "path":
         r = n["res"]
         if r.get("r") == "local":
+            if _SHAPE[0]:
+                return "<%s>" % strip_generics(n.get("ty") or "?").lstrip("&").replace("mut ", "")
             return r["name"]
         p = r.get("path") or r.get("dbg", "?")
         return short_path(p)
@@ -397,6 +429,9 @@ class Program:
         self.by_short = {}
         for p, b in self.bodies.items():
             self.by_short.setdefault(short_path(p), []).append(b)
+        for b in facts["bodies"]:
+            if (b.get("kind") or "").startswith(("Const", "AssocConst")) and peel(b["tree"]).get("k") == "lit":
+                CONSTS[b["def_path"]] = peel(b["tree"])["v"][0]
         self.adts = {a["def_path"]: a for a in facts["adts"]}
         self.impls = facts["impls"]
         self.traits = {t["def_path"]: t for t in facts["traits"]}
@@ -428,7 +463,8 @@ class Program:
 
     def user_bodies(self):
         """Bodies that are not derive/macro generated."""
-        return [b for b in self.facts["bodies"] if not b.get("exp") and not (b.get("impl_of") or {}).get("derived")]
+        away = getattr(self, "inlined_away", ())
+        return [b for b in self.facts["bodies"] if not b.get("exp") and not (b.get("impl_of") or {}).get("derived") and b["def_path"] not in away]
 
     def callees(self, body):
         """Resolved crate-local callees (def paths) of a body, dyn calls fanned out to all impls."""
